@@ -42,6 +42,8 @@ let ext_of (spec : string) : ext =
   | "bad" -> mk ~ok:false XUnknown
   | _ -> failwith "ext kind"
 
+let alg_of = function 0 | 1 -> AlgSM2 | 2 | 6 -> AlgOther (ni 2) | 3 -> AlgOther (ni 3) | 4 -> AlgOther (ni 4) | _ -> AlgUnknown
+
 let cert_of (tok : string) : cert =
   let f name d = field tok name d in
   let g = int_of_string (f 'g' "1") in
@@ -50,7 +52,8 @@ let cert_of (tok : string) : cert =
   { c_parse_ok = (f 'p' "1" <> "0");
     c_version = zi (int_of_string (f 'v' "2"));
     c_serial_len = ni (int_of_string (f 'l' "8"));
-    c_alg_match = (f 'm' "1" <> "0");
+    c_inner_alg = alg_of (int_of_string (f 'm' "0"));
+    c_outer_alg = alg_of (int_of_string (f 'o' "0"));
     c_issuer = ni (int_of_string (f 'i' "1"));
     c_subject = ni (int_of_string (f 's' "1"));
     c_not_before = zi (int_of_string (f 'b' "0"));
